@@ -16,6 +16,7 @@ From Vivid Require Import Codec.Prim Codec.MsgPrim Codec.MsgPrimProofs Cluster.V
   Codec.ClusterMsgs Codec.ClusterMsgsProofs Codec.Msgs Codec.MsgsProofs Codec.Envelope Codec.EnvelopeProofs
   Codec.MsgsWitnesses.
 From Vivid Require Import Generated.MsgRegistry.
+From Vivid Require Import Codec.RefNorm Codec.RefNormProofs Codec.RefMsgs.
 Local Open Scope N_scope.
 
 (** * registry completeness: every wire name found at a RegisterInternalMessage / RegisterCustomMessage
@@ -52,6 +53,20 @@ Proof. exact (OnKill_rt newref k reason poison rest). Qed.
 Theorem C12_rt_OnKilled newref k rest :
   valid_kref newref k -> drun (dec_OnKilled newref) (enc_OnKilled k ++ rest) = MOk (k, rest).
 Proof. exact (OnKilled_rt newref k rest). Qed.
+(** The ActorRef factory is no longer only an uninterpreted function: Codec/RefNorm.v models actor.NewRef at string level
+    ([new_ref ip a p]; [ip] = the net.ParseIP oracle) and Codec/RefNormProofs.v proves it idempotent for every oracle
+    (C12_newref_idempotent in C12_reflect.v, Part II).  [newref_model ip] is the factory built from that model. *)
+(** Hence: OnKill / OnKilled carrying ANY ref the factory built (from strings below 4 GiB) round-trip, the decoder using
+    the factory model itself — C12_rt_OnKill / C12_rt_OnKilled without the hypothesis on the uninterpreted [newref] *)
+Theorem C12_rt_OnKill_factory_ref ip a p a' p' reason poison rest :
+  new_ref ip a p = inl (a', p') -> len32 a -> len32 p -> len32 reason ->
+  drun (dec_OnKill (newref_model ip)) (enc_OnKill (RRef a' p') reason poison ++ rest) = MOk ((RRef a' p', reason, poison), rest).
+Proof. exact (OnKill_factory_rt ip a p a' p' reason poison rest). Qed.
+Theorem C12_rt_OnKilled_factory_ref ip a p a' p' rest :
+  new_ref ip a p = inl (a', p') -> len32 a -> len32 p ->
+  drun (dec_OnKilled (newref_model ip)) (enc_OnKilled (RRef a' p') ++ rest) = MOk (RRef a' p', rest).
+Proof. exact (OnKilled_factory_rt ip a p a' p' rest). Qed.
+
 Theorem C12_rt_Pong ping resp rest :
   in_i64 ping -> in_i64 resp -> drun dec_Pong (enc_Pong ping resp ++ rest) = MOk ((ping, resp), rest).
 Proof. exact (Pong_rt ping resp rest). Qed.
@@ -384,6 +399,8 @@ Print Assumptions C12_names_dispatch.
 Print Assumptions C12_rt_empty.
 Print Assumptions C12_rt_OnKill.
 Print Assumptions C12_rt_OnKilled.
+Print Assumptions C12_rt_OnKill_factory_ref.
+Print Assumptions C12_rt_OnKilled_factory_ref.
 Print Assumptions C12_rt_Pong.
 Print Assumptions C12_rt_Error.
 Print Assumptions C12_rt_NoneArgsCommandMessage.
